@@ -282,6 +282,41 @@ func gen12(tier string, emit func(Case)) {
 				}
 			}
 		}
+		// stacked directives: two (thorough: also three) next-line comments in front of the same statement, with different rule lists
+		for _, d := range pls {
+			if d.Form != "next-line" {
+				continue
+			}
+			in := rulesOf(bl.Diags, d.From, d.To, true)
+			outR := rulesOf(bl.Diags, d.From, d.To, false)
+			lists := [][]string{nil}
+			for _, r := range in {
+				lists = append(lists, []string{r})
+			}
+			if len(outR) > 0 {
+				lists = append(lists, []string{outR[0]})
+			}
+			for i, l1 := range lists {
+				for j, l2 := range lists {
+					if i == j {
+						continue
+					}
+					v1, v2 := d, d
+					v1.Marker, v1.Rules = "//", l1
+					v2.Marker, v2.Rules = "#", l2
+					emit(Case{Program: p.name, Base: base, With: apply(r.lines, []Directive{v1, v2}), Dirs: []Directive{v1, v2}})
+					if thorough {
+						for k, l3 := range lists {
+							if k != i && k != j {
+								v3 := d
+								v3.Marker, v3.Rules = "//", l3
+								emit(Case{Program: p.name, Base: base, With: apply(r.lines, []Directive{v1, v2, v3}), Dirs: []Directive{v1, v2, v3}})
+							}
+						}
+					}
+				}
+			}
+		}
 		if thorough {
 			for i := 0; i < len(pls); i++ {
 				for j := i + 1; j < len(pls); j++ {
@@ -468,7 +503,7 @@ func init() {
 	engine.Register(engine.Spec[Case]{
 		ID:    "C12",
 		Level: "exploration",
-		Rule: "12 base programs with 3-8 lint errors (several rules, nested in if/else/bare blocks, first/last statement, two subroutines, after the covered region); every placement of one directive (next-line before every statement incl. compound ones, trailing on every simple statement, start/end around every contiguous range of every block with the end before the next statement or as the last comment of the block) x {no rule list, a covered rule, an uncovered rule, two rules} x {//, #, /* */}; every pair of placements (thorough: every triple); oracle: diagnostics(with) = diagnostics(base) minus those located on covered lines (and of a listed rule), compared as multisets of (severity, rule, message); non-trivial = at least one diagnostic is covered; distinct = distinct program text",
+		Rule: "12 base programs with 3-8 lint errors (several rules, nested in if/else/bare blocks, first/last statement, two subroutines, after the covered region); every placement of one directive (next-line before every statement incl. compound ones, trailing on every simple statement, start/end around every contiguous range of every block with the end before the next statement or as the last comment of the block) x {no rule list, a covered rule, an uncovered rule, two rules} x {//, #, /* */}; every pair of placements (thorough: every triple); two (thorough: three) next-line comments stacked in front of one statement with different rule lists; oracle: diagnostics(with) = diagnostics(base) minus those located on covered lines (and of a listed rule), compared as multisets of (severity, rule, message); non-trivial = at least one diagnostic is covered; distinct = distinct program text",
 		Gen:  gen12,
 		Key:  func(c Case) string { return c.With },
 		Run:  run,
